@@ -36,6 +36,8 @@ func runC12(c *Ctx) {
 	// imported: every stream close wakes its reader before anything that can fail ("every blocked read returns")
 	c.importing = "C03"
 	c03R2(c, "C03.R2")
+	// a close that is abandoned half-way (closing frame refused by the encoder) leaves the count and the timer wrong
+	c03R1(c, "C03.R1")
 	c.importing = ""
 }
 
@@ -119,17 +121,29 @@ func c12R1(c *Ctx, rule string) {
 			c.Bad(rule, construct, c.atFn(f), "does not call closeSession")
 			continue
 		}
-		// every nil-error return of f that is reachable after closeSession()==nil must be preceded by closeAll
+		// once closeSession() has been won the session IS closed and nobody else will ever close its connections
+		// (closeSession refuses a second caller, so passiveClose from a failing send does nothing): every return
+		// after the won call — success or error — must be preceded by closeAll (called, or deferred before the return)
 		bad := ""
 		for _, r := range returnsOf(f) {
-			v := resultValue(r, 0)
-			if errIsNilAt(v, r) == "nonnil" {
+			lost := false
+			for _, at := range AtomsAt(r) {
+				if at.Kind == "cmp" && at.Op == token.NEQ && (at.X == ssa.Value(cs) || at.Y == ssa.Value(cs)) && (isNilConst(at.X) || isNilConst(at.Y)) {
+					lost = true // closeSession failed: someone else closed the session and owns the teardown
+				}
+			}
+			if lost {
 				continue
 			}
-			// success-ish return: closeAll must dominate it
 			dom := false
 			allInstrs(f, func(i ssa.Instruction) {
-				if callsFn(i, a.closeAll) && instrDominates(i, r) {
+				if !instrDominates(i, r) {
+					return
+				}
+				if callsFn(i, a.closeAll) {
+					dom = true
+				}
+				if d, isD := i.(*ssa.Defer); isD && d.Call.StaticCallee() == a.closeAll {
 					dom = true
 				}
 			})
@@ -137,7 +151,7 @@ func c12R1(c *Ctx, rule string) {
 				bad = c.at(r)
 			}
 		}
-		c.Check(bad == "", rule, construct, c.at(cs), "every return that may report success is dominated by sb.closeAll()", "a return at "+bad+" reports success without having closed the pooled connections: peers and blocked writers stay connected")
+		c.Check(bad == "", rule, construct, c.at(cs), "every return after the won closeSession is preceded by sb.closeAll()", "the return at "+bad+" leaves the function after closeSession() succeeded without closing the pooled connections: the session is marked closed, nothing else will close them (a second closeSession is refused), and peers, readers and blocked writers of the remaining connections stay connected")
 	}
 	// deplex: read error ⇒ passiveClose then return; conn.Close deferred
 	if dp := c.need(rule, "internal/multiplex", "switchboard.deplex"); dp != nil {
@@ -228,6 +242,37 @@ func c12R1(c *Ctx, rule string) {
 			}
 		})
 		c.Check(cas && closes, rule, "closeAll closes every pooled connection once", c.atFn(f), "CAS on broken, then Range → conn.Close()", fmt.Sprintf("CAS=%v, Close in Range=%v", cas, closes))
+		// the walk visits every connection: the Range callback never asks sync.Map.Range to stop, and Close is on
+		// every path through it (closeAll runs once per session: a connection it skips is never closed)
+		allInstrs(f, func(i ssa.Instruction) {
+			call, ok := i.(*ssa.Call)
+			if !ok || calleeName(&call.Call) != "(*sync.Map).Range" {
+				return
+			}
+			var cb *ssa.Function
+			if mc, ok := call.Call.Args[1].(*ssa.MakeClosure); ok {
+				cb, _ = mc.Fn.(*ssa.Function)
+			} else if fn, ok := call.Call.Args[1].(*ssa.Function); ok {
+				cb = fn
+			}
+			if cb == nil {
+				c.Undecided(rule, "closeAll visits every connection", c.at(i), "Range callback is not a function literal")
+				return
+			}
+			stops := ""
+			for _, r := range returnsOf(cb) {
+				if b, isB := boolConst(r.Results[0]); !isB || !b {
+					stops = c.at(r)
+				}
+			}
+			isClose := func(j ssa.Instruction) bool {
+				cc := callCommon(j)
+				return cc != nil && calleeName(cc) == "(net.Conn).Close"
+			}
+			skip := entrySearch(cb, isClose, func(j ssa.Instruction) bool { _, isRet := j.(*ssa.Return); return isRet })
+			c.Check(stops == "" && skip == nil, rule, "closeAll visits and closes every connection", c.at(i), "the Range callback always returns true and passes conn.Close() on every path",
+				fmt.Sprintf("the walk over the pooled connections can stop early (return that is not the constant true at %q) or skip the Close (%v): one failing or already-closed connection leaves the remaining ones open for ever", stops, skip != nil))
+		})
 	}
 	_ = p
 }
